@@ -12,7 +12,8 @@ META = {
         "Lockset analysis of every READ entry point x thread-safe class x {root,nested} x buffering mode with threading on: (a) every mutation of the shared tree performed on behalf "
         "of a read (the in-place merge done by _load, including list growth) and every change of the tree's suspend counter holds the root's collection lock - or the read performs "
         "none; (b) every test of the suspend counter that decides to skip a load is made under that lock (otherwise thread B skips its load because thread A is inside a suspended "
-        "section); (c) buffered reads access class-wide buffer state only under the buffer lock (C13.a restricted to readers). Returned values under interleavings are NOT decided."
+        "section); (c) buffered reads access class-wide buffer state only under the buffer lock (C13.a restricted to readers); (e) a read is answered from one loaded snapshot: no path "
+        "load -> read of the data -> second load of the same tree -> read of the data without the lock held across. Returned values under interleavings are otherwise NOT decided."
     ),
     "rule": "contexts = thread-safe class x reader x {root,nested} x mode; non-trivial = the read merges into the shared tree",
     "trusted_base": ["engine lock identity and CFG"],
@@ -76,5 +77,53 @@ def run_unit(A, unit, rep, tier):
                         rep.fail("C14.b", norm_key("C14.b", n.func, "suspend-test"),
                                  f"`{n.stmt}` in {n.func} consults the tree-wide suspend counter without the collection lock: while another thread is inside a suspended section this "
                                  f"read silently skips its load", g.witness(g.path(g.entry, [n.id])), g.label)
+                check_one_snapshot(g, st, want, rep)
     if A.is_buffered(cls):
         c13.run_unit(A, unit, rep, tier, readers_only=True, rule="C14.c")
+
+
+def _outer_load(n):
+    return (n.kind == "enter" and n["fname"] == "_load" and n["recv"] is not None and n["recv"].kind == "inst" and n["recv"].args[2] == "T"
+            and not any(q.split(".")[-1] == "_load" for q, _ in n.stack[:-1]))
+
+
+def check_one_snapshot(g, st, want, rep):
+    """C14.e: a read is answered from ONE loaded snapshot.  Violation = a path  load -> read of the tree's data ->
+    another load of the same tree -> read of the data  with the collection lock not held across: what was read from
+    the first snapshot (a membership test, an element) need not hold in the second one, so the reader can fail or
+    return a value the collection never had (`if key in self: return self[key]`; one load per element in a search)."""
+    nodes = live(g)
+    L = {n.id for n in nodes if _outer_load(n)}
+    R = {n.id for n in nodes if n.kind == "data_read" and n["owner"].kind == "inst" and n["owner"].args[2] == "T" and not n.in_extent("_load")}
+    entry_func = g.nodes[g.entry]["func"]
+    bad = None
+    if L and R:
+        r1s = R & g.reachable_from(list(L))
+        r1s = {r for r in r1s if not all(want in held_ids(s_) for s_ in st.get(r, [()]))}
+        if r1s:
+            s2 = g.reachable_from([y for r in r1s for (y, _) in g.succ[r]])
+            l2s = {l for l in (L & s2) if not all(want in held_ids(s_) for s_ in st.get(l, [()]))}
+            if l2s:
+                r2s = R & g.reachable_from(list(l2s))
+                if r2s:
+                    # reconstruct one concrete witness
+                    for r1 in sorted(r1s):
+                        p2 = None
+                        for l2 in sorted(l2s):
+                            p2 = g.path(r1, [l2])
+                            if p2 and len(p2) > 1:
+                                p3 = g.path(l2, sorted(r2s))
+                                if p3:
+                                    bad = (r1, l2, (g.path(g.entry, [r1]) or []) + p2[1:] + p3[1:])
+                                    break
+                        if bad:
+                            break
+    if bad is None:
+        rep.ok("C14.e")
+    else:
+        r1, l2, w = bad
+        n1, n2 = g.nodes[r1], g.nodes[l2]
+        rep.fail("C14.e", norm_key("C14.e", entry_func, "two-snapshots"),
+                 f"{entry_func} reads the data (`{n1.stmt}` in {n1.func}), then loads the tree again (`{n2.stmt}`) and reads the data again, without holding the "
+                 f"collection lock across: a concurrent writer between the two loads makes the read fail or return a value the collection never had",
+                 g.witness(w), g.label)
